@@ -622,6 +622,11 @@ func genTTL(seed uint64, run int) *Case {
 			pf.KeepFull = []int{0}
 			pf.Holes = []uint32{16383}
 			setup.Ops = nil
+			if NewRng(seed, uint64(run), 90).Chance(0.5) {
+				// every row of the full block carries a far deadline: the rows that expire sit
+				// behind a whole block of rows that do not (own stream)
+				cs.Cfg.Params["ttl_full_ns"] = int(time.Hour)
+			}
 		}
 	}
 	for ti, nw := 0, r.Range(1, 3); ti < nw; ti++ {
@@ -656,6 +661,14 @@ func genTTL(seed uint64, run int) *Case {
 						op.Yield = true // reads with yields between obtaining the accessor and using it
 					}
 				case pick < 6 && !never:
+					if cr := NewRng(seed, uint64(run), uint64(9100+ti*64+x*8+o)); cr.Chance(0.35) {
+						// the time-to-live is taken away again (zero or negative duration; own stream)
+						op.Writes = append(op.Writes, Write{Clear: true, TTL: -int64(cr.Intn(2)) * int64(interval), Via: cr.Intn(2)})
+						if op.Writes[0].Via == 1 {
+							op.Yield = true
+						}
+						break
+					}
 					op.Writes = append(op.Writes, Write{Extend: int64(ttls[r.Intn(len(ttls))])})
 				case pick < 7 && !never:
 					op = Op{Kind: "delete", Target: Target{Mode: "stable", K: k}}
